@@ -112,7 +112,7 @@ def cached_ops_elsewhere(an: Analysis):
     cache_classes = {prog.cls("helpers.caching._SyncCache").qualname, prog.cls("helpers.caching._AsyncCache").qualname}
     sib = {prog.fn(s[0]).qualname for s in SIBLINGS}
     out = []
-    for fi in prog.functions.values():
+    for fi in prog.scan_functions():
         for n in fi.own_nodes():
             if isinstance(n, ast.Attribute) and n.attr == "_cached":
                 t = prog.expr_type(fi, n.value)
